@@ -9,10 +9,15 @@ Property theorems over Model/Layout.lean (helper lemmas private).
   unpack_pack_locations   all sequences of the four locator kinds, all multi-index lengths
   grid_dedup_lookup    de-duplicated grid table gives every object its own grid parameters back
   ancestors_spec       `computeAncestors` (depth 1) = the parent's serial number of every row, for every tree
+  load_save_sorted, load_save_id_iff, sort_idem, armiLt_asymm   child order: load(save t) = t with every child list sorted;
+                       = t iff already sorted (F12 exactly, with the witness as example)
+  save_load_param_own  C04 ∘ C05: same shape, and every object reads back its own parameter value up to `normalise`
+                       (param_lookup_own + Pack.write_read_faithful)
 Parameter value encoding is C05; h5py, blueprint re-construction of components, grids' `reduce()` and the child
 sort key are parameters (correspondence / whole-stack oracle only).
 -/
 import ArmiVerif.Model.Layout
+import ArmiVerif.Props.C05
 
 namespace ArmiVerif.Layout
 
@@ -397,5 +402,208 @@ example : ancestors ((flattenT exTree).map (fun r => (r.1.serial, r.2))) = [none
 /-- a truncated layout is refused, not silently completed -/
 example : compose ((flattenT exTree).take 4) = none := by decide
 example : compose (flattenT exTree ++ [(⟨9, 9, .none, none⟩, 0)]) = none := by decide
+
+
+
+/-! ### child order: `_createLayout` writes sorted children, `load` sorts again (F12 as a theorem) -/
+
+variable (lt : Label → Label → Bool)
+
+def Tree.lab : Tree → Label
+  | .node l _ => l
+
+/-- insert a child before the first sibling that is not smaller (stable, as Python's `sorted` with `__lt__`) -/
+def insF (x : Tree) : Forest → Forest
+  | .nil => .cons x .nil
+  | .cons y r => if lt y.lab x.lab then .cons y (insF x r) else .cons x (.cons y r)
+
+mutual
+/-- `Composite.sort()` / the `sorted(list(comp))` of `_createLayout`, applied at every level -/
+def sortT : Tree → Tree
+  | .node l kids => .node l (sortF kids)
+def sortF : Forest → Forest
+  | .nil => .nil
+  | .cons t f => insF lt (sortT t) (sortF f)
+end
+
+/-- head of a forest is not smaller than `x` (vacuous for the empty forest) -/
+def headOk (x : Tree) : Forest → Prop
+  | .nil => True
+  | .cons y _ => lt y.lab x.lab = false
+
+mutual
+/-- every child list, at every depth, is in sorted order (adjacent children never out of order) -/
+def DeepSortedT : Tree → Prop
+  | .node _ kids => DeepSortedF kids
+def DeepSortedF : Forest → Prop
+  | .nil => True
+  | .cons t f => DeepSortedT t ∧ headOk lt t f ∧ DeepSortedF f
+end
+
+/-- what `writeToDB` stores: the rows of the tree with children sorted at every level -/
+def saveRows (t : Tree) : List Row := flattenT (sortT lt t)
+
+/-- what `load` returns: the composed tree, sorted (`root.sort()`) -/
+def loadTree (rows : List Row) : Option Tree := (compose rows).map (sortT lt)
+
+private theorem sortT_lab (t : Tree) : (sortT lt t).lab = t.lab := by
+  cases t; simp [sortT, Tree.lab]
+
+private theorem insF_sorted (hasym : ∀ a b, lt a b = true → lt b a = false) (x : Tree) (hx : DeepSortedT lt x) :
+    ∀ (f : Forest), DeepSortedF lt f → DeepSortedF lt (insF lt x f) ∧
+      (∀ z : Tree, headOk lt z f → lt x.lab z.lab = false → headOk lt z (insF lt x f))
+  | .nil => by intro _; simp [insF, DeepSortedF, headOk, hx]
+  | .cons y r => by
+    intro hf
+    simp only [DeepSortedF] at hf
+    obtain ⟨hy, hyr, hr⟩ := hf
+    simp only [insF]
+    by_cases hlt : lt y.lab x.lab = true
+    · simp only [hlt, if_true]
+      obtain ⟨h1, h2⟩ := insF_sorted hasym x hx r hr
+      refine ⟨⟨hy, h2 y hyr (hasym _ _ hlt), h1⟩, ?_⟩
+      intro z hz _
+      simpa [headOk] using hz
+    · have hlt' : lt y.lab x.lab = false := by simpa using hlt
+      simp only [hlt', Bool.false_eq_true, if_false]
+      refine ⟨⟨hx, by simp [headOk, hlt'], hy, hyr, hr⟩, ?_⟩
+      intro z _ hzx
+      simpa [headOk] using hzx
+
+mutual
+private theorem sortT_sorted (hasym : ∀ a b, lt a b = true → lt b a = false) : ∀ (t : Tree), DeepSortedT lt (sortT lt t)
+  | .node l kids => by simp only [sortT, DeepSortedT]; exact sortF_sorted hasym kids
+private theorem sortF_sorted (hasym : ∀ a b, lt a b = true → lt b a = false) : ∀ (f : Forest), DeepSortedF lt (sortF lt f)
+  | .nil => by simp [sortF, DeepSortedF]
+  | .cons t f => by
+    simp only [sortF]
+    exact (insF_sorted lt hasym _ (sortT_sorted hasym t) _ (sortF_sorted hasym f)).1
+end
+
+mutual
+private theorem sortT_of_sorted : ∀ (t : Tree), DeepSortedT lt t → sortT lt t = t
+  | .node l kids, h => by simp only [sortT, DeepSortedT] at h ⊢; rw [sortF_of_sorted kids h]
+private theorem sortF_of_sorted : ∀ (f : Forest), DeepSortedF lt f → sortF lt f = f
+  | .nil, _ => by simp [sortF]
+  | .cons t f, h => by
+    simp only [DeepSortedF] at h
+    obtain ⟨ht, hh, hf⟩ := h
+    simp only [sortF, sortT_of_sorted t ht, sortF_of_sorted f hf]
+    cases f with
+    | nil => simp [insF]
+    | cons y r => simp only [headOk] at hh; simp [insF, hh]
+end
+
+/-- **what comes back from the database is the saved tree with every child list sorted** — for every tree and every
+asymmetric child order `lt` (`ArmiObject.__lt__`: reversed complete indices; `Component.__lt__`: bounding circle) -/
+theorem load_save_sorted (hasym : ∀ a b, lt a b = true → lt b a = false) (t : Tree) :
+    loadTree lt (saveRows lt t) = some (sortT lt t) := by
+  unfold loadTree saveRows
+  rw [compose_flatten]
+  simp only [Option.map_some]
+  rw [sortT_of_sorted lt _ (sortT_sorted lt hasym t)]
+
+/-- **F12, exactly**: the loaded tree equals the saved tree iff every child list of the saved tree was already in
+sorted order; an edit that leaves children out of locator order (dischargeSwap, swapAssemblies, full-core
+conversion appending assemblies) is therefore the only way child order can change across a round trip. -/
+theorem load_save_id_iff (hasym : ∀ a b, lt a b = true → lt b a = false) (t : Tree) :
+    loadTree lt (saveRows lt t) = some t ↔ DeepSortedT lt t := by
+  rw [load_save_sorted lt hasym t]
+  constructor
+  · intro h
+    have := sortT_sorted lt hasym t
+    rw [Option.some.inj h] at this
+    exact this
+  · intro h
+    rw [sortT_of_sorted lt t h]
+
+/-- saving twice / loading twice changes nothing more: sorting is idempotent -/
+theorem sort_idem (hasym : ∀ a b, lt a b = true → lt b a = false) (t : Tree) : sortT lt (sortT lt t) = sortT lt t :=
+  sortT_of_sorted lt _ (sortT_sorted lt hasym t)
+
+
+/-! ### the concrete order of `ArmiObject.__lt__`, and the F12 witness -/
+
+/-- `ArmiObject.__lt__` (lexicographic on reversed complete indices) is asymmetric, so the theorems above apply to it -/
+theorem armiLt_asymm (a b : Label) (h : armiLt a b = true) : armiLt b a = false := by
+  unfold armiLt lexLt at *
+  generalize locKey a.loc = x at *
+  generalize locKey b.loc = y at *
+  obtain ⟨x1, x2, x3⟩ := x
+  obtain ⟨y1, y2, y3⟩ := y
+  simp only [Bool.or_eq_true, Bool.and_eq_true, decide_eq_true_eq, Bool.or_eq_false_iff, Bool.and_eq_false_iff,
+    decide_eq_false_iff_not] at *
+  omega
+
+/-- F12 witness: a core whose second assembly sits at a smaller location than the first (what `dischargeSwap` /
+`swapAssemblies` leave behind) -/
+private def f12Tree : Tree :=
+  .node ⟨0, 0, .none, none⟩ (.cons (.node ⟨1, 1, .index 1 0 0, none⟩ .nil) (.cons (.node ⟨1, 2, .index 0 0 0, none⟩ .nil) .nil))
+
+example : (saveRows armiLt f12Tree).map (·.1.serial) = [0, 2, 1] := by decide
+example : ¬ DeepSortedT armiLt f12Tree := by
+  simp [f12Tree, DeepSortedT, DeepSortedF, headOk, Tree.lab, armiLt, lexLt, locKey]
+/-- hence the loaded tree differs from the saved one (child order), by `load_save_id_iff` -/
+example : loadTree armiLt (saveRows armiLt f12Tree) ≠ some f12Tree := by
+  intro h
+  have := (load_save_id_iff armiLt armiLt_asymm f12Tree).mp h
+  simp [f12Tree, DeepSortedT, DeepSortedF, headOk, Tree.lab, armiLt, lexLt, locKey] at this
+/-- and a tree built in locator order does come back identical -/
+example : DeepSortedT armiLt exTree := by
+  simp [exTree, DeepSortedT, DeepSortedF, headOk, Tree.lab, armiLt, lexLt, locKey]
+
+/-! ## C04 ∘ C05 -/
+
+
+/-! ### C04 ∘ C05: every object reads back its own parameter value -/
+
+/-- the per-class column of one parameter: the values of the objects of class `τ`, in layout order
+(`Layout.groupedComps[τ]` on the write side, `groupedComps[compType]` of `_initComps` on the read side) -/
+def column (rows : List Row) (v : Label → Pack.Entry) (τ : Nat) : List Pack.Entry :=
+  (rows.filter (fun r => r.1.ty = τ)).map (fun r => v r.1)
+
+/-- `Database.writeToDB` for one parameter: flatten the tree, encode each class's column with `_writeParams` -/
+def saveParam (t : Tree) (v : Label → Pack.Entry) (τ : Nat) : Pack.WriteRes :=
+  Pack.writeParam (column (flattenT t) v τ)
+
+/-- `Database.load` for one parameter and row `k` of the stored layout: decode the column of the row's class with
+`_readParams` and take entry number `indexInData[k]`; `none` = nothing stored / rejected / unreadable -/
+def loadParam (rows : List Row) (stored : Nat → Pack.WriteRes) (counts : Nat → Nat) (k : Nat) : Option Pack.ROut :=
+  match rows[k]? with
+  | none => none
+  | some r =>
+    match stored r.1.ty with
+    | .ok st =>
+      match Pack.readParam (counts r.1.ty) st, (indexInData (rows.map (·.1.ty)))[k]? with
+      | some outs, some i => outs[i]?
+      | _, _ => none
+    | _ => none
+
+/-- **A saved tree loads back with the same shape, and every object reads back its own parameter value.**
+For every tree `t` and every assignment `v` of per-object values: the stored layout composes back to `t`
+(`compose_flatten`), and for every row `k` whose class column is accepted by `_writeParams` (C05's modelled domain:
+one dtype `d` per column, well-formed arrays; guard: no value equal to the None sentinel next to a None), what
+`load` hands to object `k` is the documented normalisation of the value object `k` had when saved — its own value, not
+a neighbour's (`param_lookup_own`) and not a different one (`write_read_faithful`). -/
+theorem save_load_param_own (t : Tree) (v : Label → Pack.Entry) (k : Nat) (hk : k < (flattenT t).length)
+    (np : Bool) (d : Pack.DT)
+    (hwf : ∀ e ∈ column (flattenT t) v ((flattenT t)[k]).1.ty, Pack.EntryWF np d e)
+    (hs : Pack.NoSentinel d (column (flattenT t) v ((flattenT t)[k]).1.ty))
+    (st : Pack.Stored) (hacc : saveParam t v ((flattenT t)[k]).1.ty = .ok st) :
+    compose (flattenT t) = some t ∧
+    loadParam (flattenT t) (saveParam t v) (fun τ => (column (flattenT t) v τ).length) k
+      = some (Pack.normalise (Pack.jaggedTest (column (flattenT t) v ((flattenT t)[k]).1.ty)) (v ((flattenT t)[k]).1)) := by
+  refine ⟨compose_flatten t, ?_⟩
+  generalize hrows : flattenT t = rows at *
+  have hread := Pack.write_read_faithful _ np d hwf hs st (by simpa [saveParam, hrows] using hacc)
+  obtain ⟨i, hi, hown⟩ := param_lookup_own rows k hk
+  unfold loadParam
+  simp only [List.getElem?_eq_getElem hk]
+  have hacc' : saveParam t v rows[k].1.ty = .ok st := hacc
+  simp only [hacc', hread, hi]
+  unfold column
+  rw [List.getElem?_map, List.getElem?_map, hown]
+  rfl
+
 
 end ArmiVerif.Layout
